@@ -257,7 +257,7 @@ func keyN(i int) []byte {
 	return h[:]
 }
 
-var idPool = []uint{1, 2, 3, 7, 42, 1000, 65536, 4294967295}
+var idPool = []uint{1, 2, 3, 7, 42, 1000, 65536, 4294967295, 1 << 63, 1<<64 - 2, 1<<63 - 1, 4294967296}
 
 // GenPSet draws one cheap parameter set.
 func GenPSet(r *Run, id uint) PSet {
@@ -276,8 +276,8 @@ func GenConfig(r *Run, base string) Config {
 	used := map[uint]bool{}
 	for i := 0; i < n; i++ {
 		id := idPool[r.Choose("setid", len(idPool))]
-		for used[id] {
-			id++
+		for used[id] || id == 0 {
+			id++ // wraps to 0 after the largest id; 0 is reserved
 		}
 		used[id] = true
 		c.Sets = append(c.Sets, GenPSet(r, id))
